@@ -118,7 +118,8 @@ Fixpoint ord_clean (t : node) : bool :=
 Record stmt_case := {
   s_text : string;                (* as sent to the leader *)
   s_tree : option node;           (* real parser on s_text *)
-  s_logged : option node          (* real parser on the statement found in the leader's raft log *)
+  s_logged : option node;         (* real parser on the statement found in the leader's raft log *)
+  s_same : bool                   (* the logged text is byte-identical to the sent text *)
 }.
 
 (* the statement in the log is the one the model replicates; the premises of C01_converge hold for it *)
@@ -131,6 +132,9 @@ Definition stmt_ok (s : stmt_case) : bool :=
        | Some jds => all_same jds
        | None => false
        end
+  (* a statement the parser does not accept (CREATE TEMP TABLE ...) is replicated as it stands; the driver only sends
+     such statements without environment-reading calls *)
+  | None, None => s_same s
   | _, _ => false
   end.
 
